@@ -147,7 +147,9 @@ func VerifC01_LateGrowth() {
 
 // a multipart request whose body is raw bytes (experimenter multipart): any body size
 func VerifC01_MultipartRawBody() {
-	r := &MultipartRequest{Header: NewOfp13Header(), Type: MultipartType_Experimenter, Flags: vr.U16("flags")}
+	// any multipart type (table-features and experimenter requests carry bodies the library has
+	// no type for; whatever the type, a body that is set is encoded and must be counted)
+	r := &MultipartRequest{Header: NewOfp13Header(), Type: vr.U16("mptype"), Flags: vr.U16("flags")}
 	r.Header.Type = Type_MultiPartRequest
 	r.Body = util.NewBuffer(vr.Bytes("body", vr.IntRange("bodylen", 0, 13)))
 	c01framed(r, Type_MultiPartRequest)
